@@ -17,7 +17,7 @@ struct RszAlg { static constexpr bool needs_compat = true;
         gil::resize_view(s, d, gil::nearest_neighbor_sampler()); return ""; } };
 int main() {
     return hv::run([](std::string const& line) -> std::string {
-        auto a = hv::words(line);
+        auto a = op_words(line);
 #if RS_GROUP == 1
         if (a.size() == 17 && a[0] == "rs") {
             RsAlg alg; double q[6]; for (int i = 0; i < 6; ++i) q[i] = (double)hv::to_ll(a[11 + i]) / 4.0;
